@@ -141,6 +141,10 @@ func (e *c01env) close() {
 	os.RemoveAll(e.dir)
 }
 
+// c01hung is set once a call did not return within the watchdog: the node is wedged (a lock left held, a channel never
+// served), every later call on it would block too, so the run stops delivering inputs and reports this one.
+var c01hung bool
+
 // call runs f under recover and a watchdog; returns the observable.
 func c01call(f func() string) string {
 	res := make(chan string, 1)
@@ -156,7 +160,8 @@ func c01call(f func() string) string {
 	select {
 	case r := <-res:
 		return r
-	case <-time.After(40 * time.Second):
+	case <-time.After(20 * time.Second):
+		c01hung = true
 		return "hang"
 	}
 }
@@ -174,6 +179,9 @@ func errStr(err error) string {
 }
 
 func (e *c01env) exec(c *Ctx, kind string, nt *c01net, args ...[]byte) {
+	if c01hung {
+		return
+	}
 	var out string
 	switch kind {
 	case "talk":
@@ -343,6 +351,24 @@ func runC01(c *Ctx) {
 			env.exec(c, "put", nt, append([]byte{0x14}, r.Bytes(l)...), r.Bytes(20))
 		}
 	}
+	// (a1) beacon cache entries (finality / optimistic update) under get / put / get sequences with other slots: the
+	// adapter guards its cache with a lock; a path that forgets to release it wedges the next call (watchdog)
+	for _, v := range c01loadVectors() {
+		if len(v.key) != 9 || (v.key[0] != 0x12 && v.key[0] != 0x13) {
+			continue
+		}
+		nt := env.nets[1]
+		later := append([]byte{v.key[0]}, 0xff, 0xff, 0xff, 0xff, 0, 0, 0, 0)
+		earlier := append([]byte{v.key[0]}, 1, 0, 0, 0, 0, 0, 0, 0)
+		for round := 0; round < 2; round++ {
+			env.exec(c, "put", nt, v.key, v.val)
+			env.exec(c, "get", nt, later)
+			env.exec(c, "get", nt, earlier)
+			env.exec(c, "get", nt, v.key)
+			env.exec(c, "talk", nt, c01findContent(later))
+		}
+		env.exec(c, "put", nt, v.key, v.val)
+	}
 	// (a'') genuine test vectors of the repository, unchanged and under structured mutation, through the
 	// validators (with the vector's own header served by the oracle when the file carries one) and the storage adapters
 	vectors := c01loadVectors()
@@ -422,6 +448,9 @@ func runC01(c *Ctx) {
 			}
 			env.exec(c, kind, nt, m)
 		}
+	}
+	if c01hung {
+		return
 	}
 	// live attack over loopback UDP against a child process (handlers run in the discv5 goroutines, no recover)
 	if c.Tier == "thorough" {
